@@ -74,11 +74,12 @@ type Gen struct {
 	forced     []Event
 	forcedCand []Event
 	lateCand   []Event
+	nomoreFor  map[uint64]int // steps of this node run with moreEntriesToApply=false for a while (transfer target)
 	Hist       map[string]int
 }
 
 func NewGen(r *rand.Rand, c *Cluster, p Profile) *Gen {
-	return &Gen{R: r, C: c, P: p, blocked: map[[2]uint64]bool{}, deliv: map[int]int{}, removed: map[uint64]bool{}, asleep: map[uint64]bool{}, hold: map[int]int{}, seenSn: map[int]bool{}, Hist: map[string]int{}}
+	return &Gen{R: r, C: c, P: p, blocked: map[[2]uint64]bool{}, deliv: map[int]int{}, removed: map[uint64]bool{}, asleep: map[uint64]bool{}, hold: map[int]int{}, seenSn: map[int]bool{}, nomoreFor: map[uint64]int{}, Hist: map[string]int{}}
 }
 
 type cand struct {
@@ -181,7 +182,7 @@ func (g *Gen) next() (Event, bool) {
 			if g.asleep[id] {
 				w *= 0.02
 			}
-			add(w, Event{K: "step", N: id, Rnd: g.rnd(), NoMore: g.R.Float64() < p.PNoMore, Busy: g.R.Float64() < p.PBusy})
+			add(w, Event{K: "step", N: id, Rnd: g.rnd(), NoMore: g.R.Float64() < p.PNoMore || g.nomoreFor[id] > 0, Busy: g.R.Float64() < p.PBusy})
 			add(p.Crash/na, Event{K: "crash", N: id})
 		}
 		if v.ApplyQ > 0 && !v.Blocked && !v.Removed {
@@ -304,7 +305,18 @@ func (g *Gen) next() (Event, bool) {
 			}
 		}
 		if len(tv.Voters) > 1 {
-			add(p.Transfer, Event{K: "transfer", N: tgt, X: tv.Voters[g.R.Intn(len(tv.Voters))]})
+			tx := tv.Voters[g.R.Intn(len(tv.Voters))]
+			if g.R.Intn(2) == 0 {
+				// prefer a target whose application lags behind its commit index (a transfer campaign with entries,
+				// possibly a configuration change, in (applied, committed])
+				for _, x := range tv.Voters {
+					if xv := views[x]; x != tgt && xv.Alive && xv.AppApplied < xv.Commit {
+						tx = x
+						break
+					}
+				}
+			}
+			add(p.Transfer, Event{K: "transfer", N: tgt, X: tx})
 			add(p.Unreach, Event{K: "unreach", N: tgt, X: tv.Voters[g.R.Intn(len(tv.Voters))]})
 		}
 	}
@@ -404,6 +416,14 @@ func (g *Gen) next() (Event, bool) {
 		return Event{}, false
 	case "deliver":
 		g.deliv[ev.M]++
+	case "step":
+		if g.nomoreFor[ev.N] > 0 {
+			g.nomoreFor[ev.N]--
+		}
+	case "transfer":
+		if xv := c.View(ev.X); xv.AppApplied < xv.Commit || g.R.Intn(3) == 0 {
+			g.nomoreFor[ev.X] = 12
+		}
 	case "propose":
 		ev.P = c.NewPayload()
 		if c.Opt.MaxCommitted != 0 {
